@@ -30,6 +30,9 @@ SCENARIOS = {
     "trio6": ([6, 6, 6], [(-1, -1), (-1, -1), (0, 1)], [(3, 3)] * 3),
     "duo6": ([6, 6], [(-1, -1), (0, -1)], [(3, 3)] * 2),
     "mixed_6x4_5": ([6, 4, 5], [(-1, -1), (-1, -1), (0, 1)], [(3, 3), (2, 2), (3, 2)]),
+    # backcross: sample 0 is the progeny of samples 1 x 2 and is itself mated with its parent 2 (progeny listed BEFORE its parent)
+    "backcross_child_first": ([2, 2, 2, 2], [(1, 2), (-1, -1), (-1, -1), (0, 2)], [(1, 1)] * 4),
+    "backcross4": ([4, 4, 4, 4], [(-1, -1), (-1, -1), (0, 1), (2, 0)], [(2, 2)] * 4),
     "mixed_then_child": ([4, 2, 3, 2, 2], [(-1, -1), (-1, -1), (0, 1), (-1, -1), (3, 1)], [(2, 2), (1, 1), (2, 1), (1, 1), (1, 1)]),
 }
 UNBALANCED = {"mixed_4x2_3", "mixed_2x4_3", "unbalanced31", "unbalanced13", "unreduced", "mixed_then_child", "mixed_6x4_5"}
@@ -70,13 +73,25 @@ def random_shape(rng):
     return ploidies, parents, tau
 
 
-def make_pedigree(rng, name=None):
+def make_pedigree(rng, name=None, shuffle_order=None):
     if name is None:
         name = str(rng.choice(sorted(SCENARIOS)))
     if name == "random":
         ploidies, parents, tau = random_shape(rng)
     else:
         ploidies, parents, tau = SCENARIOS[name]
+    if shuffle_order is None:
+        shuffle_order = rng.random() < 0.35
+    if name == "backcross_child_first":
+        shuffle_order = False
+    if shuffle_order and len(ploidies) > 1:
+        # the order in which samples are listed carries no meaning: progeny may be listed before their parents
+        perm = rng.permutation(len(ploidies))          # new position k holds old sample perm[k]
+        inv = {int(o): k for k, o in enumerate(perm)}
+        ploidies = [ploidies[int(o)] for o in perm]
+        parents = [tuple(inv[p] if p >= 0 else -1 for p in parents[int(o)]) for o in perm]
+        tau = [tau[int(o)] for o in perm]
+        name = name + "+shuffled"
     n = len(ploidies)
     n_haps = int(rng.choice([2, 3, 3, 4])) if max(ploidies) <= 4 else int(rng.choice([2, 3, 4]))
     if name == "random" and sum(ploidies) > 16:
